@@ -53,6 +53,17 @@ class HObj(Obj):
         return hash(self.key())
 
 
+class _FwdData:
+    """data object with attributes named like a node's: kind, data_id, children, name, meta"""
+
+    def __init__(self, key):
+        self.key = key
+        self.kind, self.children, self.name, self.meta = "data-kind", ["not", "nodes"], "data-name", {"m": 1}
+
+    def __str__(self):
+        return f"FwdData({self.key})"
+
+
 def calc_id(tree, data):
     return data.guid if isinstance(data, Obj) else hash(data)
 
@@ -321,6 +332,19 @@ def run_case(case, res):
                     if not (isinstance(r, tuple) and r[1] == "UniqueConstraintError"):
                         bad.append(f"from_dict of a document with duplicate siblings: {r!r}")
             else:
+                if case["seed"] % 4 == 0 or len(case["f"]) % 3 == 0:
+                    # a tree that forwards attribute access to its data objects, whose attributes are named like node
+                    # attributes: a node's dict describes the node - string form, custom id, children - nothing of the data's
+                    ft = Tree("fwd", forward_attrs=True)
+                    fa = ft.add(_FwdData("fa"))
+                    fa.add(_FwdData("fb")).add(_FwdData("fc"))
+                    ft.add(_FwdData("fd"), data_id="custom")
+                    fd = attempt(lambda: ft.to_dict_list())
+                    res.count("forwarding_tree_dicts")
+                    want = [{"data": "FwdData(fa)", "children": [{"data": "FwdData(fb)", "children": [{"data": "FwdData(fc)"}]}]},
+                            {"data": "FwdData(fd)", "data_id": "custom"}]
+                    if fd != want:
+                        bad.append(f"to_dict_list() of a forward_attrs tree: {fd!r}, expected {want!r}")
                 mapper_used = fl in ("obj", "objdefault")
                 src = shape(t)
                 style = case.get("style", 0) if mapper_used else 0
